@@ -39,6 +39,18 @@ let rec rd_stmt () : stmt = match next () with
 and rd_stmts () : stmt list = let n = next_int () in
   let rec go i = if i = 0 then [] else let s = rd_stmt () in s :: go (i - 1) in go n
 
+let rec rd_formula () : formula = match next () with
+  | "!" -> let p = rd_formula () in Not p
+  | "&" -> let p = rd_formula () in let q = rd_formula () in And (p, q)
+  | "|" -> let p = rd_formula () in let q = rd_formula () in Or (p, q)
+  | ">" -> let p = rd_formula () in let q = rd_formula () in Implies (p, q)
+  | "X" -> let p = rd_formula () in Next p
+  | "U" -> let p = rd_formula () in let q = rd_formula () in Until (p, q)
+  | "F" -> let p = rd_formula () in Eventually p
+  | "G" -> let p = rd_formula () in Always p
+  | t when String.length t >= 2 && t.[0] = 'a' -> Atom (nat_of_int (int_of_string (String.sub t 1 (String.length t - 1))))
+  | t -> failwith ("formula token " ^ t)
+
 let rd_behavior () =
   let pre = rd_list rd_cond in let inv = rd_list rd_cond in let body = rd_stmts () in
   { b_pre = pre; b_inv = inv; b_body = body }
@@ -46,8 +58,9 @@ let rd_scenario () =
   let pre = rd_list rd_cond in let inv = rd_list rd_cond in
   let lim = (match next () with "N" -> None | "Q" -> Some (rd_q ()) | s -> failwith ("lim " ^ s)) in
   let tw = rd_list rd_cond in let mons = rd_list next_nat in
+  let reqs = rd_list next_nat in
   let comp = (match next () with "N" -> None | "Y" -> Some (rd_stmts ()) | s -> failwith ("comp " ^ s)) in
-  { s_pre = pre; s_inv = inv; s_limit = lim; s_termwhen = tw; s_monitors = mons; s_compose = comp }
+  { s_pre = pre; s_inv = inv; s_limit = lim; s_termwhen = tw; s_monitors = mons; s_reqs = reqs; s_compose = comp }
 let rd_program () =
   let bs = rd_list rd_behavior in
   let ms = rd_list rd_stmts in
@@ -55,8 +68,9 @@ let rd_program () =
   let objs = rd_list (fun () -> let i = next_int () in if i < 0 then None else Some (nat_of_int i)) in
   let ri = rd_list next_nat in let rr = rd_list next_nat in let rf = rd_list next_nat in
   let ts = rd_list rd_cond in
+  let rq = rd_list (fun () -> let f = rd_formula () in let cs = rd_list rd_cond in (f, cs)) in
   { p_behaviors = bs; p_monitors = ms; p_scenarios = ss; p_objects = objs;
-    p_rec_init = ri; p_records = rr; p_rec_final = rf; p_termsim = ts }
+    p_rec_init = ri; p_records = rr; p_rec_final = rf; p_termsim = ts; p_reqs = rq }
 let rd_world () = rd_list (fun () -> rd_list (fun () -> next () = "1"))
 
 let i n = string_of_int (int_of_nat n)
@@ -65,6 +79,7 @@ let js_acts acts = js_list (fun (a, l) -> "[" ^ i a ^ "," ^ js_list i l ^ "]") a
 let js_event = function
   | EScenario (s, n) -> "[\"S\"," ^ i s ^ "," ^ i n ^ "]"
   | ETermWhen (s, n) -> "[\"TW\"," ^ i s ^ "," ^ i n ^ "]"
+  | EReq (s, r, a) -> "[\"Q\"," ^ i s ^ "," ^ i r ^ "," ^ i a ^ "]"
   | ERecord r -> "[\"R\"," ^ i r ^ "]"
   | EMonitor (m, n) -> "[\"M\"," ^ i m ^ "," ^ i n ^ "]"
   | ETermCheck n -> "[\"TC\"," ^ i n ^ "]"
@@ -79,6 +94,7 @@ let kind_name = function
   | RDone TBehavior -> "terminatedByBehavior"
   | RRejected -> "rejected" | RViolation true -> "PreconditionViolation"
   | RViolation false -> "InvariantViolation" | RStuck -> "stuck" | RError -> "error"
+  | RSceneRejected -> "sceneRejected"
 
 let handle (line : string) : string =
   toks := split_ws line;
